@@ -14,6 +14,11 @@ import (
 // objects implements sort.Interface and uses hash as sorting key.
 type objects []Entry
 
+// maxObjectsPrealloc caps the capacity reserved from the object count a
+// pack header announces, so a hostile count cannot force a huge (or fatal)
+// allocation. The slice still grows as objects are actually added.
+const maxObjectsPrealloc = 1 << 16
+
 // Writer implements a packfile Observer interface and is used to generate
 // indexes.
 type Writer struct {
@@ -69,7 +74,7 @@ func (w *Writer) Finished() bool {
 // OnHeader implements packfile.Observer interface.
 func (w *Writer) OnHeader(count uint32) error {
 	w.count = count
-	w.objects = make(objects, 0, count)
+	w.objects = make(objects, 0, min(count, maxObjectsPrealloc))
 	return nil
 }
 
